@@ -227,6 +227,10 @@ def job_builder(job, pmax):
             job.prove(f"builder[{dtag}]/reach[path{k}]", pr.pc, expect="sat")
 
 
+# concrete replays run on the real code when the changed code uses something the engine does not model (harness.finish)
+FALLBACK = [(replay_builder, {}), (replay_builder, {"dry": "wet gas"}), (replay_builder_vs_quad, {}), (replay_builder_vs_quad, {"dry": "wet gas"}), (replay_hussainy, {})]
+
+
 def jobs(tier):
     out = [("hussainy", job_hussainy), ("transform3", lambda j: job_transform(j, 3)), ("builder", lambda j: job_builder(j, 45))]
     if tier != "quick":
